@@ -172,14 +172,14 @@ func init() {
 			"distinct_nontrivial = distinct option-subset signatures for which both outcomes (kept and dropped) were observed (obigrep) or which were compared on all records (obiannotate, obidistribute)",
 		Assume: []string{"reference semantics of DESIGN.md Appendix A.2 / A.3", "-I/-D patterns and data are lower case (documented vs actual case sensitivity is not at stake)", "expressions only reference attributes every record has"},
 		Subs: []core.Sub{
-			{Name: "grep", N: core.Const(ng+ng*(ng-1)/2+60, ng+ng*(ng-1)/2+700), Run: runGrep},
-			{Name: "grep-manybatches", N: core.Const(12, 60), Run: runGrepManyBatches},
-			{Name: "grep-paired", N: core.Const(24, 120), Run: runGrepPaired},
-			{Name: "annotate", N: core.Const(na+na*(na-1)/2+40, na+na*(na-1)/2+400), Run: runAnnotate},
-			{Name: "annotate-selected", N: core.Const(24, 160), Run: runAnnotateSelected},
-			{Name: "annotate-dependent", N: core.Const(6, 18), Run: runAnnotateDependent},
-			{Name: "annotate-cut", N: core.Const(16, 80), Run: runCutFree},
-			{Name: "distribute", N: core.Const(24, 120), Run: runDistribute},
+			{Name: "grep", N: core.Const(ng+ng*(ng-1)/2+60, ng+ng*(ng-1)/2+4000), Run: runGrep},
+			{Name: "grep-manybatches", N: core.Const(12, 200), Run: runGrepManyBatches},
+			{Name: "grep-paired", N: core.Const(24, 600), Run: runGrepPaired},
+			{Name: "annotate", N: core.Const(na+na*(na-1)/2+40, na+na*(na-1)/2+3000), Run: runAnnotate},
+			{Name: "annotate-selected", N: core.Const(24, 800), Run: runAnnotateSelected},
+			{Name: "annotate-dependent", N: core.Const(6, 60), Run: runAnnotateDependent},
+			{Name: "annotate-cut", N: core.Const(16, 400), Run: runCutFree},
+			{Name: "distribute", N: core.Const(24, 480), Run: runDistribute},
 		},
 		Cmds:          []string{"obigrep", "obiannotate", "obidistribute"},
 		MinNontrivial: 80,
